@@ -320,6 +320,17 @@ def _spec_helpers():
             I.ctx.fact(c(t) * c(t) + s_(t) * s_(t) == 1)
         return mk(z3.And(c(A + B) == c(A) * c(B) - s_(A) * s_(B), s_(A + B) == s_(A) * c(B) + c(A) * s_(B)))
 
+    @reg("same_phase")
+    def same_phase(I, args, kw):
+        """Both values are complex exponentials exp(i a), exp(i b): a == b (sufficient for equality; goal position only)."""
+        from .values import SymC, as_complex
+
+        a, b = args
+        if isinstance(a, SymC) and isinstance(b, SymC) and a.arg is not None and b.arg is not None:
+            return v_cmp("Eq", a.arg, b.arg)
+        a, b = as_complex(a), as_complex(b)
+        return v_and(v_cmp("Eq", a.re, b.re), v_cmp("Eq", a.im, b.im))
+
     @reg("trig_cong")
     def trig_cong(I, args, kw):
         """Congruence instance: A == B implies cos A == cos B and sin A == sin B (valid)."""
@@ -568,32 +579,56 @@ def verify(spec, registry=None, max_paths=400, only_clauses=None, only_cfg=None)
         out["obligations"].append(dict(name=f"{base}/vacuity", status="undecided", property_level=False,
                                        reason="no feasible path reached the end of the function (requires contradictory or everything unsupported)"))
     plevel = spec.get("property_level", True)
-    for vc in vcs:
-        if "unsupported" in vc:
-            out["obligations"].append(dict(name=vc["name"], status="undecided", reason="UNSUPPORTED: " + vc["unsupported"],
-                                           property_level=False, cfg=vc.get("cfg")))
-            continue
-        r = smt.prove(vc["pc"], vc["goal"])
-        if r["status"] == "undecided" and vc.get("hints"):
-            # refutation search under extra ground constraints: any model found is a model of the original VC
-            r2 = smt.prove(list(vc["pc"]) + list(vc["hints"]), vc["goal"], timeout_ms=10000, second_opinion=False)
-            if r2["status"] == "refuted":
-                r2["backend"] = "z3+hints"
-                r = r2
-        implicit = vc["meta"].get("implicit") or vc["meta"].get("lemma")
-        ob = dict(name=vc["name_path"], clause=vc["name"], status=r["status"], backend=r.get("backend"),
-                  time_s=r.get("time_s", 0.0), cfg=vc["cfg"], reason=r.get("reason"),
-                  property_level=bool(plevel) and not implicit if not isinstance(plevel, dict)
-                  else bool(plevel.get(vc["meta"].get("clause"), True)) and not implicit)
-        if r["status"] == "refuted":
-            ob["model"] = r.get("model_text", "")
-            try:
-                ob["model_params"] = model_params(r["model"], vc["env"])
-            except Exception as e:  # noqa: BLE001
-                ob["model_params"] = {"_error": str(e)}
-        out["obligations"].append(ob)
+    _SOLVE["vcs"], _SOLVE["plevel"] = vcs, plevel
+    njobs = int(spec.get("solve_jobs", 1))
+    if njobs > 1 and len(vcs) > 4:
+        import multiprocessing as mp
+
+        with mp.get_context("fork").Pool(min(njobs, len(vcs))) as pool:
+            out["obligations"] += pool.map(_solve_vc, range(len(vcs)), chunksize=1)
+    else:
+        out["obligations"] += [_solve_vc(i) for i in range(len(vcs))]
     out["time_s"] = time.time() - t0
     return out
+
+
+_SOLVE = {}
+
+
+def _solve_vc(i):
+    vc, plevel = _SOLVE["vcs"][i], _SOLVE["plevel"]
+    if "unsupported" in vc:
+        return dict(name=vc["name"], status="undecided", reason="UNSUPPORTED: " + vc["unsupported"],
+                    property_level=False, cfg=vc.get("cfg"))
+    r = None
+    ids = vc.get("uf_fact_ids") or set()
+    if ids:
+        # relevance filter: first try without the (nonlinear) UF axiom instances; fewer assumptions is sound
+        core = [a for a in vc["pc"] if a.get_id() not in ids]
+        r0 = smt.prove(core, vc["goal"], timeout_ms=6000, second_opinion=False, retries=False)
+        if r0["status"] == "discharged":
+            r0["backend"] = str(r0.get("backend")) + "(without UF facts)"
+            r = r0
+    if r is None:
+        r = smt.prove(vc["pc"], vc["goal"])
+    if r["status"] == "undecided" and vc.get("hints"):
+        # refutation search under extra ground constraints: any model found is a model of the original VC
+        r2 = smt.prove(list(vc["pc"]) + list(vc["hints"]), vc["goal"], timeout_ms=10000, second_opinion=False)
+        if r2["status"] == "refuted":
+            r2["backend"] = "z3+hints"
+            r = r2
+    implicit = vc["meta"].get("implicit") or vc["meta"].get("lemma")
+    ob = dict(name=vc["name_path"], clause=vc["name"], status=r["status"], backend=r.get("backend"),
+              time_s=r.get("time_s", 0.0), cfg=vc["cfg"], reason=r.get("reason"),
+              property_level=bool(plevel) and not implicit if not isinstance(plevel, dict)
+              else bool(plevel.get(vc["meta"].get("clause"), True)) and not implicit)
+    if r["status"] == "refuted":
+        ob["model"] = r.get("model_text", "")
+        try:
+            ob["model_params"] = model_params(r["model"], vc["env"])
+        except Exception as e:  # noqa: BLE001
+            ob["model_params"] = {"_error": str(e)}
+    return ob
 
 
 class _OldNS:
